@@ -139,6 +139,7 @@ LEAVES_FULL = ["0", "1", "2", "7", "-3", "2.5", "True", "False", "'a'", "''", "'
 LEAVES_CORE = LEAVES_FULL[:10]
 LEAVES_SMALL = ["0", "1", "2", "-3", "2.5", "True", "'a'"]
 LEAVES_TINY = ["0", "2", "2.5", "'a'"]
+LEAVES_MIN = ["2", "2.5", "'a'"]
 
 UN_OPS = ("+", "-", "not ")
 BIN_OPS = ("+", "-", "*", "/", "//", "%", "**")
@@ -641,10 +642,12 @@ def run(ctx):
     core = [by_text[t] for t in LEAVES_CORE]
     small = [by_text[t] for t in LEAVES_SMALL]
     tiny = [by_text[t] for t in LEAVES_TINY]
+    minimal = [by_text[t] for t in LEAVES_MIN]
+    m3 = ("auto", "math", "logic")  # the transform pathway only accepts literal displays: judged in F1 / FE1 / TV
 
     # ---- F1: depth 1 over all leaves, structurally complete --------------------------------
     f1 = Layer("F1", D=full, Dt=core if thorough else small + [by_text["False"], by_text["''"]],
-               Dq=small if thorough else tiny + [by_text["True"]], classes=True, empties=True)
+               Dq=small if thorough else tiny, classes=True, empties=True)
     LAYERS["F1"] = f1
     run_layer(f1)
     classes_f1 = dict(total["classes"])
@@ -668,14 +671,14 @@ def run(ctx):
         return cl
 
     r1_wide = _reps(classes_of(core if thorough else small, "R1wide"))
-    r1_narrow = _reps(classes_of(small if thorough else tiny, "R1narrow"))
+    r1_narrow = _reps(classes_of(small if thorough else minimal, "R1narrow"))
     r1_tern = _reps(classes_of(tiny, "R1tern")) if thorough else r1_narrow[: 12]
     sizes["classes[F1]"] = len(classes_f1)
 
     # ---- P2: depth 2 --------------------------------------------------------------------------
-    p2a = Layer("P2a", D=r1_narrow, S=small, pairs="full", Dt=r1_tern if thorough else r1_tern[:8], St=tiny,
-                classes=thorough)
-    p2b = Layer("P2b", D=[e for e in r1_wide if e.t not in {x.t for x in r1_narrow}], S=small, pairs="mixed")
+    p2a = Layer("P2a", D=r1_narrow, S=small, pairs="full", Dt=r1_tern[:24] if thorough else r1_tern[:8], St=tiny,
+                classes=thorough, modes=m3)
+    p2b = Layer("P2b", D=[e for e in r1_wide if e.t not in {x.t for x in r1_narrow}], S=small, pairs="mixed", modes=m3)
     LAYERS["P2a"], LAYERS["P2b"] = p2a, p2b
     run_layer(p2a)
     classes_p2 = dict(total["classes"])
@@ -683,7 +686,7 @@ def run(ctx):
     run_layer(p2b)
     if thorough:
         p2c = Layer("P2c", D=_reps(classes_f1, exclude_texts={e.t for e in r1_wide} | {e.t for e in r1_narrow}), S=tiny,
-                    pairs="mixed")
+                    pairs="mixed", modes=m3)
         LAYERS["P2c"] = p2c
         run_layer(p2c)
 
@@ -729,7 +732,7 @@ def run(ctx):
         if kind == "U":
             members.extend(fe1.gen(kind, i, sk))
     members = sorted(set(members), key=lambda t: (len(t), t))
-    fe2 = Layer("FE2", D=[mk(t) for t in members], S=partners[: (4 if thorough else 3)], pairs="mixed-nodiag", observe_only=True,
+    fe2 = Layer("FE2", D=[mk(t) for t in members], S=partners[: (4 if thorough else 2)], pairs="mixed-nodiag", observe_only=True,
                 modes=("auto", "logic", "math"))
     LAYERS["FE2"] = fe2
     run_layer(fe2)
